@@ -198,19 +198,22 @@ def worker_setup(k):
     return wt
 
 
-def run_mutant(m, wt, args):
+def run_mutant(m, wt, args, known=None):
     res = {k: m[k] for k in ("file", "kind", "line", "id")}
     sh("git checkout -q -- . && git clean -fdq", cwd=wt)
     with open(os.path.join(wt, m["file"]), "w") as f:
         f.write(m["source"])
     env = dict(os.environ, PYTHONPATH=os.path.join(wt, "src"), PYTHONDONTWRITEBYTECODE="1")
-    rc, out = sh("/venv/bin/python -m pytest -q -p no:cacheprovider --timeout=120 -x", cwd=wt, env=env, timeout=600)
-    survived = rc == 0 and bool(re.search(r"\b\d+ passed", out))
+    if known is not None and "survives_repo_tests" in known:
+        survived = known["survives_repo_tests"]
+    else:
+        rc, out = sh("/venv/bin/python -m pytest -q -p no:cacheprovider --timeout=60 -x", cwd=wt, env=env, timeout=400)
+        survived = rc == 0 and bool(re.search(r"\b\d+ passed", out))
     res["survives_repo_tests"] = survived
-    if not survived:
+    if not survived or args.phase == "tests":
         return res
     name = m["id"].replace(":", "_").replace("<", "").replace(">", "")
-    env2 = dict(os.environ, PTA_REPO=wt, PTA_EVIDENCE_DIR=os.path.join(BASE, "ev", name), PTA_REPLAY_DIR=os.path.join(BASE, "rp", name), VERIF_JOBS=str(args.jobs))
+    env2 = dict(os.environ, PTA_REPO=wt, PTA_EVIDENCE_DIR=os.path.join(BASE, "ev", name), PTA_REPLAY_DIR=os.path.join(BASE, "rp", name), VERIF_JOBS=str(args.jobs), PTA_SHARD_TIMEOUT="150")
     res["checks"] = {}
     for c in checks_for(m["file"]):
         t0 = time.time()
@@ -233,6 +236,7 @@ def main():
     ap.add_argument("--workers", type=int, default=5)
     ap.add_argument("--jobs", type=int, default=3)
     ap.add_argument("--seed", type=int, default=0)
+    ap.add_argument("--phase", default="all", choices=["tests", "checks", "all"], help="tests: only the repository's tests; checks: only survivors recorded by an earlier 'tests' run")
     ap.add_argument("--out", default=os.path.join(VERIF, "mutants", "MUTATION_AUDIT.json"))
     args = ap.parse_args()
     files = [f for f in all_files() if not args.files or any(x in f for x in args.files.split(","))]
@@ -256,23 +260,39 @@ def main():
     prev = {}
     if os.path.exists(args.out):
         prev = {r["id"]: r for r in json.load(open(args.out)).get("mutants", [])}
+    if args.phase == "checks":
+        todo = [m for m in todo if prev.get(m["id"], {}).get("survives_repo_tests") and "checks" not in prev[m["id"]]]
+        print(f"{len(todo)} survivors to run against the checks", flush=True)
     t0 = time.time()
 
     def job(m):
         wt = pool.get()
         try:
-            return run_mutant(m, wt, args)
+            return run_mutant(m, wt, args, prev.get(m["id"]) if args.phase == "checks" else None)
         except Exception as e:  # noqa: BLE001
             return {"id": m["id"], "file": m["file"], "kind": m["kind"], "line": m["line"], "error": f"{type(e).__name__}: {e}"}
         finally:
             pool.put(wt)
 
+    def save():
+        for r in results:
+            prev[r["id"]] = r
+        json.dump({"summary": {}, "mutants": sorted(prev.values(), key=lambda r: r["id"])}, open(args.out, "w"), indent=1)
+
+    from concurrent.futures import as_completed
+
     try:
         with ThreadPoolExecutor(max_workers=args.workers) as ex:
-            for i, r in enumerate(ex.map(job, todo)):
+            futs = [ex.submit(job, m) for m in todo]
+            for i, fu in enumerate(as_completed(futs)):
+                r = fu.result()
                 results.append(r)
-                if r.get("survives_repo_tests"):
+                if r.get("survives_repo_tests") and args.phase != "tests":
                     print(f"[{i + 1}/{len(todo)} {time.time() - t0:6.0f}s] {r['id']:60s} {'CAUGHT by ' + r['caught_by'] if r.get('caught_by') else 'SURVIVED ALL'}", flush=True)
+                if (i + 1) % 25 == 0:
+                    save()
+                    if args.phase == "tests":
+                        print(f"[{i + 1}/{len(todo)} {time.time() - t0:6.0f}s] survivors so far: {sum(1 for x in results if x.get('survives_repo_tests'))}", flush=True)
     finally:
         while not pool.empty():
             wt = pool.get()
